@@ -21,10 +21,10 @@ TEXT = {
  "C08": ("whole-library simulation of the documented protocol (announce by CAS, then wait; signal after seeing the announcement) on 1..3 single-slot channels with up to 1000 rendez-vous; oracle = sequence numbers, wake-ups never exceed signals issued, wake-ups == signals at the end, termination (signal hands the waiter over)", "5.C08"),
  "C09": ("whole-library simulation of a single-slot mailbox with p producers, c consumers and plain lock/unlock readers; oracle = consumed multiset == produced, status under the lock is the one waited for, termination", "5.C09"),
  "C14": ("whole-library simulation of 1..16 callers on 1..8 workers over 1..4 once-controls with init routines that yield, block on a mutex held by a sibling, or create and join a thread; oracle = execution counter ==1, completed flag visible to every caller right after return, late calls run nothing", "5.C14"),
- "C10": ("whole-library simulation (ASan build for most runs): sequential histories of key create/delete/set/get over all 1024 indices incl. exhaustion, reuse and invalid keys; threads with private dictionaries over keys spread over the range, migrating between workers; 2-4 threads creating/deleting keys concurrently; oracle = dictionary per thread, live keys pairwise distinct, EINVAL/NULL for out-of-range", "5.C10"),
- "C11": ("whole-library simulation (ASan build for most runs): threads store values under seeded key subsets that leave earlier tree branches empty, keys with/without destructors and NULL values mixed, termination by return / myth_exit from a nested frame / cancellation from another thread; oracle = multiset of (destructor function, value) calls equals the model exactly once each, no call with a foreign value or for a key without destructor, no crash", "5.C11"),
+ "C10": ("whole-library simulation (ASan build for most runs): sequential histories of key create/delete/set/get over all 1024 indices incl. exhaustion, reuse and invalid keys; threads with private dictionaries over keys spread over the range, migrating between workers; 2-4 threads creating/deleting keys concurrently; several generations of threads on recycled records, some keys with destructors that yield (the exiting thread migrates inside them); oracle = dictionary per thread, live keys pairwise distinct, EINVAL/NULL for out-of-range", "5.C10"),
+ "C11": ("whole-library simulation (ASan build for most runs): threads store values under seeded key subsets that leave earlier tree branches empty, keys with/without destructors and NULL values mixed, termination by return / myth_exit from a nested frame / cancellation from another thread, a quarter of the destructors yield; oracle = multiset of (destructor function, value) calls equals the model exactly once each, no call with a foreign value or for a key without destructor, no crash", "5.C11"),
  "C15": ("simulated part: seeded init/fini histories (1..8 cycles per run, 1..64 workers requested through a global attribute object, the environment, or implicit first use; 2-3 native contexts racing the first use) under seeded schedules in which the main thread is stolen so that myth_fini runs on another worker; oracle = worker count and worker indices from every thread, exactly n-1 workers spawned per initialisation, all worker coroutines returned after fini, next init works. Input part (input generation, not schedule search): seeded malformed strings for MYTH_NUM_WORKERS / MYTH_WORKER_NUM / MYTH_DEF_STKSIZE / MYTH_BIND_WORKERS / MYTH_CPU_LIST in fresh processes with real worker threads; oracle = exit status 0, documented worker count, bounded time", "5.C15"),
- "C20": ("whole-library simulation against a virtual clock (coarse: reads that do not advance; forward jumps): myth_sleep/usleep/nanosleep with durations 0..seconds and malformed requests, timed lock with past/present/future deadlines against a holder thread, timed join against running/finished targets, sibling threads counting progress; oracle = virtual elapsed >= requested, EINVAL for malformed, timeout only after the last clock value handed to the call exceeded the deadline, success when the mutex was free throughout / the target had published its result before the call, a sleeper on the only worker lets a runnable sibling progress", "5.C20"),
+ "C20": ("whole-library simulation against a virtual clock (coarse: reads that do not advance; forward jumps): myth_sleep/usleep/nanosleep with durations 0..seconds and malformed requests, timed lock with past/present/future deadlines against a holder thread, timed join against running/finished targets, sibling threads counting progress; oracle = virtual elapsed >= requested, EINVAL for malformed, timeout only after the last clock value handed to the call exceeded the deadline, success when the mutex was free throughout / the target had published its result before the call, a sleeper on the only worker lets a runnable sibling progress, and a sleeper whose worker is the only free one runs a thread queued on the other (busy) worker", "5.C20"),
  "C17": ("whole-library simulation of myth_create_join_many_ex / _various_ex (n incl. 0, all stride combinations incl. shared function slot and strides larger than the element, results/ids/attrs NULL or given, per-item attributes, nested call from a thread) and, through a C++ harness, of mtbb::task_group (up to 40 run() calls > inline capacity 8, nested groups, reuse) and mtbb::parallel_for (first,last), (first,last,step) and the grain-size form incl. empty, single-element and reversed ranges; oracle = per-item counters, argument addresses, result/id slots, guard bytes, nothing for n=0 / empty range, i.e. the sequential loop", "5.C17"),
  "C03": ("whole-library simulation (library built at -O2 and at -O0) of probe threads that call every kind of switching API through an assembly stub loading per-(thread,operation) patterns into rbx, rbp, r12-r15 and a stack array, entered through both creation paths and migrating between workers under the seeded scheduler; oracle = bit-exact registers and stack contents after every operation, 16-byte aligned frame asserted inside every hook (hooks execute in all context-switch callbacks, thread entry paths and the scheduler), aligned SSE store at thread entry", "5.C03"),
  "C18": ("serial deterministic simulation of multi-worker executions for the DAG Recorder: generated well-nested task programs run on a virtual work-stealing scheduler with a virtual clock, each execution recorded several times with identical timing under different contraction options (never / by span / uncollapse_min / by node count / towards a target size); oracle = work, critical path, interval counts and edge counts by kind computed independently from the generated program and from the per-interval user hooks, compared with GS.root->info, with the .stat file, with the totals of the dumped DAG (materialised edges + logical counts) and across all option settings; T_inf <= T_1", "5.C18"),
